@@ -209,7 +209,7 @@ func C13(r *core.Report) {
 	r.Extra["C13_read_calls"] = nReads
 	c13Downgrade(r, scope)
 	c13ExhaustionExits(r, scope)
-	r.Floor("C13.R1", 4)
+	r.Floor("C13.R1", 3)
 	r.Floor("C13.R2", 15)
 	r.Floor("C13.R3", 40)
 	c18ErrorSliceIsOpaque(r, "C13.R5")
